@@ -669,13 +669,13 @@ var propScanStop = hx.Prop[SCase]{
 	},
 }
 
-func TestProp(t *testing.T)    { prop.Check(t); propScanStop.Check(t) }
-func TestRegress(t *testing.T) { prop.Regress(t); propScanStop.Regress(t) }
+func TestProp(t *testing.T)    { prop.Check(t); propScanStop.Check(t); propDaemon.Check(t) }
+func TestRegress(t *testing.T) { prop.Regress(t); propScanStop.Regress(t); propDaemon.Regress(t) }
 func TestReplay(t *testing.T) {
 	if *hx.ReplayPath == "" {
 		t.Skip("no -replay")
 	}
-	if !prop.Replay(t, *hx.ReplayPath) && !propScanStop.Replay(t, *hx.ReplayPath) {
+	if !prop.Replay(t, *hx.ReplayPath) && !propScanStop.Replay(t, *hx.ReplayPath) && !propDaemon.Replay(t, *hx.ReplayPath) {
 		t.Fatalf("no prop matches %s", *hx.ReplayPath)
 	}
 }
